@@ -149,6 +149,41 @@ CHECKS = {
         "abandon/re-enter Rust streams.",
         note="prefixes only; tf.data/Rust on the OS schedule.",
         design="DESIGN.md section 3 C19"),
+    "C05": dict(
+        engine="faults+opseq",
+        technique="exhaustive single-fault enumeration on committed "
+        "datasets (every reachable file x every byte offset x fault kinds) "
+        "plus acceptance in every state of the session-history BFS",
+        text="Every reachable file x every offset: bit flip (1 bit/byte "
+        "quick, 8 thorough) and truncation to that length; extension by "
+        "3 byte values; deletion; swap with every sibling of the same kind; "
+        "rollback to every older version; subsets of metadata files rolled "
+        "back together; on flat / nested / multi-writer / continued "
+        "datasets and 1, 2 and 13 checksum algorithms; handle opened "
+        "before and after the fault must both raise. Acceptance: check() "
+        "with and without root checksums passes in every state of the "
+        "history search.",
+        note="An error at open counts as detection; root checksums always "
+        "supplied; single faults (plus rollback sets), not arbitrary "
+        "multi-fault sequences.",
+        design="DESIGN.md section 3 C05, section 2 E6"),
+    "C06": dict(
+        engine="crash",
+        technique="crash-point enumeration: every prefix (and torn-write "
+        "variant) of the strace-recorded file-system effect log of a real "
+        "writer history is materialised and recovered; consistent cuts for "
+        "worker processes; monotonicity invariant on the log",
+        text="6 (quick) / 9 (thorough) recorded histories (first and "
+        "continued root sessions, sub-directory, nested, reused "
+        "sub-directory, multi-writer in-process and with real worker "
+        "processes; fb, npz, tfrec): ~1500 crash states per run. Oracle per "
+        "state: every metadata file is a complete valid installed version, "
+        "the dataset opens, every reachable shard exists and matches its "
+        "checksums, iteration returns all committed and only handed-over "
+        "examples with intact payloads.",
+        note="Process-crash model (no fsync reordering); one recorded run "
+        "per history; replay fidelity checked byte for byte on every run.",
+        design="DESIGN.md section 3 C06, section 2 E4"),
 }
 
 NOT_YET = "check not built yet in this session (planned, see DESIGN.md section 3)"
@@ -215,6 +250,15 @@ def main() -> None:
              "kind_free_text": "real dataset iterators with lazy pool / "
                                "executor threads under the cooperative "
                                "scheduler and random draws as choices"},
+            {"name": "crash", "path": "vf/crash.py + vf/crash_writer.py",
+             "serves_properties": ["C06"],
+             "kind_free_text": "strace effect log -> every crash prefix / "
+                               "torn write / consistent cut, recovery "
+                               "oracle on the real reader"},
+            {"name": "faults", "path": "vf/checks/c05.py",
+             "serves_properties": ["C05"],
+             "kind_free_text": "single-fault enumeration on committed "
+                               "datasets"},
             {"name": "sched", "path": "vf/sched.py + vf/lazypool_mc.py",
              "serves_properties": ["C13", "C14", "C02", "C07"],
              "kind_free_text": "cooperative scheduler + choice-sequence DFS "
